@@ -62,7 +62,10 @@ pub fn run_prop(ctx: &Ctx, sink: &mut Sink) {
             let _ = std::os::unix::fs::symlink("../emptyd", sc.dir.join("r1/zle"));
             let _ = std::os::unix::fs::symlink("emptyd", sc.dir.join("le"));
         }
-        let mut cands: Vec<&str> = vec!["r0", "r1", "r0/", "./r1", "plain", "missing", "r1//"];
+        // under -H/-L the file `plain` is the target of links inside the trees: removing it as a starting
+        // point would change what those links resolve to in the middle of the run (the model's world is
+        // the one observed before the run), so it is a starting point under -P only
+        let mut cands: Vec<&str> = if flag == "P" { vec!["r0", "r1", "r0/", "./r1", "plain", "missing", "r1//"] } else { vec!["r0", "r1", "r0/", "./r1", "missing", "r1//"] };
         if flag != "P" { cands.push("le"); cands.push("r0"); }
         let mut roots: Vec<(Vec<u8>, String)> = vec![];
         let mut used_r0 = false;
